@@ -171,11 +171,13 @@ class Walker:
                                 env[l] = ('n', v)
                         else:
                             env[l] = ('s', canon(f.sym_rvalue(rv)))
+                        if f.local_name(l) is not None and not f.is_param(l):
+                            events.append(('assign', f.local_name(l), None, bb, st))
                     else:
                         if '*' in pl['p'] or any(isinstance(e, dict) and 'f' in e for e in pl['p']):
                             tgt = canon(f.sym_place(pl))
                             v = self._opval(env, rv['a']) if rv['k'] == 'use' else ('s', canon(f.sym_rvalue(rv)))
-                            events.append(('store', tgt, v[1] if v[0] != 'n' else 'not(%s)' % (v[1][1],), bb))
+                            events.append(('store', tgt, v[1] if v[0] != 'n' else 'not(%s)' % (v[1][1],), bb, st))
                             ver[tgt] = ver.get(tgt, 0) + 1
                             mem[tgt] = v[1] if v[0] == 's' else None
             t = b['t']
@@ -192,9 +194,11 @@ class Walker:
                 d = t['d']
                 csym = ('call', c.callee.target_key or '<indirect>', tuple(f.sym_operand(a) for a in c.args), bb)
                 key = canon(csym)
-                events.append(('call', c.callee.name, key, bb))
+                events.append(('call', c.callee.name, key, bb, c))
                 if not d['p']:
                     env[d['l']] = ('s', key)
+                    if f.local_name(d['l']) is not None and not f.is_param(d['l']):
+                        events.append(('assign', f.local_name(d['l']), key, bb, c))
                 if t['t'] is None:
                     return ('diverge', c.callee.name), events, trace
                 bb = t['t']
